@@ -6,13 +6,14 @@ from harness.core import Rng, gz, gq, glist, Dec, num_close
 PID = "C12"
 VO = ["theories/Misc/Containers.vo", "theories/Misc/Containers_proofs.vo", "theories/Base/Flat.vo",
       "theories/Metrics/Disagg.vo", "theories/Metrics/Disagg_proofs.vo", "theories/Metrics/Disagg_ext.vo",
-      "theories/Metrics/Disagg_perm.vo"]
+      "theories/Metrics/Disagg_perm.vo", "theories/Misc/Ingest.vo", "theories/Misc/Ingest_proofs.vo"]
 PROPS_FILES = ["props/C12.v"]
-TRANSLATORS = []
+TRANSLATORS = ["t_ingest"]
 REQUIRES = ["From FL Require Import Num Flat ListX Containers Disagg Disagg_ext."]
 SHARD = 100
 CHUNK = 1
 CASE_TIMEOUT = 600
+SEARCH_CAP = 90       # cases searched after a broken obligation (thorough generator, next seed)
 
 LEVEL_TEXT = ("Proof (Coq) of the three halves of the property on a model of positional ingestion and group-wise "
               "statistics: containers with equal values give equal rows whatever their kind / index labels "
@@ -27,21 +28,40 @@ LEVEL_TEXT = ("Proof (Coq) of the three halves of the property on a model of pos
               "monotone renaming of one sensitive feature's codes: the same table with that key component renamed) "
               "and C12_metricframe_relabel_injective (any injective renaming: equal up to the order of the index); "
               "the MetricFrame cases evaluate that model (Disagg_ext.apply_perm / perm_spec / perm_cols) on the "
-              "original, the permuted and the relabelled data against the implementation. The property is about glue, so the deciding weight is the correspondence: every "
+              "original, the permuted and the relabelled data against the implementation. 'Every entry point consumes "
+              "containers by position' is an OBLIGATION on the source: translators/t_ingest.py (fail closed, ast only) "
+              "executes MetricFrame.__init__, load_data of the five parity moments and of ErrorRate, ThresholdOptimizer.fit and "
+              "InterpolatedThresholder._pmf_predict with every helper of the anchored files abstractly over the "
+              "provenance of row data (positional / default-index pandas / labelled pandas / caller's container) and "
+              "regenerates the table of ingestion sites (pandas constructors, stores into frames and column dicts, "
+              "conversions to arrays, .index assignments: 33 sites); C12_ingestion_sites_positional proves the "
+              "regenerated table equal to the expected one with every site positional, and "
+              "C12_entry_points_by_position that every analysed entry point therefore computes on "
+              "Containers.by_position of the containers reaching its sites, so position_invariance applies "
+              "(C12_labelled_site_not_invariant: one labelled site breaks it). The property is about glue, so the deciding weight is the correspondence: every "
               "entry point (MetricFrame, fairness metrics, the parity moments, ThresholdOptimizer fit+predict, "
               "GridSearch, ExponentiatedGradient) is run on the same data presented in container x index-label "
               "variants per argument (list, ndarray, Series, one-column DataFrame named 0 / named, dict of arrays; "
               "default, shuffled, offset, reversed, all-duplicate, string index) and every variant must equal both the "
               "all-ndarray baseline and the Coq model's group statistics computed from the positional values.")
-LEVEL_NOTE = ("Trusted: Coq kernel + vm_compute; harness/props/c12.py (variant construction, comparison). pandas / "
+LEVEL_NOTE = ("Trusted: Coq kernel + vm_compute; harness/props/c12.py (variant construction, comparison); "
+              "translators/t_ingest.py (its provenance rules for numpy / pandas / sklearn calls: np.asarray, list, "
+              ".values, check_array give positional arrays, pd.Series / pd.DataFrame of those a default index, "
+              "element-wise pandas operations keep the index kind). pandas / "
               "numpy conversion functions are modelled as 'strip to the value list' and validated only by the run. "
               "EG / GridSearch / ThresholdOptimizer variants are compared with the baseline run (no Coq model of them "
               "in this property).")
 TECHNIQUE = "Coq theorems on a positional-ingestion + group-statistics model; differential run over container/index variants"
 TRUSTED = ["Coq 8.16.1 kernel and vm_compute", "harness/props/c12.py", "pandas/numpy conversions (modelled as "
-           "positional)", "no axioms (Print Assumptions: closed)"]
+           "positional)", "translators/t_ingest.py (provenance rules of the numpy / pandas / sklearn calls it knows)",
+           "no axioms (Print Assumptions: closed)"]
 ASSUMPTIONS = ["metrics used in the MetricFrame runs are ratios of the three group sums of the model "
-               "(count, selection_rate = mean_prediction on binary predictions, with sample weights)"]
+               "(count, selection_rate = mean_prediction on binary predictions, with sample weights)",
+               "t_ingest: a dict given to MetricFrame as sensitive_features / control_features holds 1d arrays (as "
+               "documented); a dict of pandas Series with different index labels is aligned by label by "
+               "pd.DataFrame.from_dict (_metric_frame.py, _process_features) and is outside the checked domain",
+               "t_ingest: the user's estimator may return any container (_get_soft_predictions is RAW); sklearn "
+               "check_array returns an ndarray"]
 RULE = ("one case = one random dataset x one entry point x ~60..130 variants (each argument alone in every container "
         "kind x index scheme, plus random all-argument combinations, a joint row permutation and a label bijection); "
         "non-trivial = at least one variant carries non-default index labels and the data have >= 2 groups with "
